@@ -115,7 +115,7 @@ def reset_caches():
 def install_opacities(cfg):
     from taurex.cache import OpacityCache, CIACache
     reset_caches()
-    mols = [m['name'] for m in cfg['molecules']]
+    mols = [m['name'] for m in cfg['molecules'] if not m.get('inactive')]
     pairs = cfg.get('cia_pairs', []) if 'CIA' in cfg['contribs'] else []
     ops, cias = opac_tables(cfg['opac'], mols, pairs)
     for m in mols:
@@ -151,10 +151,41 @@ def make_contribution(name, cfg):
     raise ValueError(name)
 
 
+def make_gas(m):
+    from taurex.data.profiles.chemistry import ConstantGas
+    g = m.get('gas')
+    if not g or g['kind'] == 'constant':
+        return ConstantGas(m['name'], mix_ratio=m['mix'])
+    if g['kind'] == 'twopoint':
+        from taurex.data.profiles.chemistry.gas.twopointgas import TwoPointGas
+        return TwoPointGas(m['name'], mix_ratio_surface=g['surface'],
+                           mix_ratio_top=g['top'])
+    if g['kind'] == 'array':
+        from taurex.data.profiles.chemistry.gas.arraygas import ArrayGas
+        return ArrayGas(m['name'], mix_ratio_array=list(g['values']))
+    if g['kind'] == 'power':
+        from taurex.data.profiles.chemistry import PowerGas
+        return PowerGas(m['name'], profile_type=g.get('profile_type', 'auto'),
+                        mix_ratio_surface=g.get('surface'),
+                        alpha=g.get('alpha'), beta=g.get('beta'),
+                        gamma=g.get('gamma'))
+    raise ValueError(g['kind'])
+
+
 def make_temperature(tp):
     from taurex.data.profiles.temperature import Isothermal, Guillot2010
     if tp['kind'] == 'isothermal':
         return Isothermal(T=tp['T'])
+    if tp['kind'] == 'rodgers':
+        from taurex.data.profiles.temperature import Rodgers2000
+        return Rodgers2000(temperature_layers=list(tp['layers']),
+                           correlation_length=tp.get('corr', 5.0))
+    if tp['kind'] == 'tarray':
+        from taurex.data.profiles.temperature.temparray import \
+            TemperatureArray
+        return TemperatureArray(tp_array=list(tp['values']),
+                                p_points=tp.get('p_points'),
+                                reverse=tp.get('reverse', False))
     if tp['kind'] == 'guillot':
         return Guillot2010(T_irr=tp['T_irr'], kappa_irr=tp.get('kappa_ir', 0.01),
                            kappa_v1=tp.get('kappa_v1', 0.005),
@@ -174,7 +205,7 @@ def build_model(cfg, install=True, contrib_order=None):
     chem = TaurexChemistry(fill_gases=list(cfg.get('fill', ['H2', 'He'])),
                            ratio=cfg.get('ratio', 0.17))
     for m in cfg['molecules']:
-        chem.addGas(ConstantGas(m['name'], mix_ratio=m['mix']))
+        chem.addGas(make_gas(m))
     pl = cfg.get('planet', {})
     st = cfg.get('star', {})
     planet = Planet(planet_mass=pl.get('mass', 1.0),
